@@ -65,12 +65,13 @@ pub mod joypad_events;
 pub mod lcd_batches;
 pub mod mbc_history;
 pub mod program_lockstep;
+pub mod rom_load_faults;
 pub mod serial_stdout;
 pub mod time_conservation;
 pub mod timer_batches;
 
 pub fn all() -> Vec<&'static dyn Scenario> {
-    vec![&timer_batches::TimerBatches, &block_lockstep::BlockLockstep, &bus_crash::BusCrash, &mbc_history::MbcHistory, &cache_bank_history::CacheBankHistory, &joypad_events::JoypadEvents, &lcd_batches::LcdBatches, &dma_batches::DmaBatches, &bus_history::BusHistory, &irq_dispatch::IrqDispatch, &ime_sequences::ImeSequences, &program_lockstep::ProgramLockstep, &time_conservation::TimeConservation, &serial_stdout::SerialStdout]
+    vec![&timer_batches::TimerBatches, &block_lockstep::BlockLockstep, &bus_crash::BusCrash, &mbc_history::MbcHistory, &cache_bank_history::CacheBankHistory, &joypad_events::JoypadEvents, &lcd_batches::LcdBatches, &dma_batches::DmaBatches, &bus_history::BusHistory, &irq_dispatch::IrqDispatch, &ime_sequences::ImeSequences, &program_lockstep::ProgramLockstep, &time_conservation::TimeConservation, &serial_stdout::SerialStdout, &rom_load_faults::RomLoadFaults]
 }
 
 pub fn by_name(name: &str) -> Option<&'static dyn Scenario> {
@@ -94,6 +95,7 @@ pub fn plan(property: &str) -> Vec<&'static str> {
         "C16" => vec!["dma_batches"],
         "C17" => vec!["joypad_events"],
         "C18" => vec!["serial_stdout"],
+        "C19" => vec!["rom_load_faults"],
         _ => vec![],
     }
 }
